@@ -3,6 +3,7 @@ CONSTANTS
   Bug = "none"
   Fmts <- FmtsAll
   CaseSet <- CasesThorough
+  MkCase <- MCMkCase
   MaxCorrupt = 1
   CorruptPos <- CorPosThorough
   CorruptVals <- AllBytes
